@@ -706,11 +706,17 @@ func (tr *trans) applyContract(fc *FuncContract, sig *types.Signature, key strin
 					}
 				}
 			}
-			if need := fc.Opts["pre_only_if"]; !assumed && (need == "" || (tr.fc != nil && tr.fc.Opts[need] == "true")) {
+			need := fc.Opts["pre_only_if"]
+			if it.OnlyIf != "" {
+				need = it.OnlyIf
+			}
+			if !assumed && (need == "" || (tr.fc != nil && tr.fc.Opts[need] == "true")) {
 				tr.oblige("pre", fmt.Sprintf("%s[%s]@%s", short, label, tr.srcText(pos)), g, pos)
 			} else if !assumed {
-				tr.note("preconditions of " + key + " are not checked in functions that do not opt in with `opt " + fc.Opts["pre_only_if"] + "`; its postcondition is used only where they hold")
-				if fc.Opts["total_post"] != "true" {
+				tr.note("preconditions of " + key + " are not checked in functions that do not opt in with `opt " + need + "`; its postcondition is used only where they hold")
+				// opt post_unguarded: the opt-in preconditions only rule out blocking (lock discipline); a call that
+				// returns satisfies the postcondition regardless
+				if fc.Opts["total_post"] != "true" && fc.Opts["post_unguarded"] != "true" {
 					unproved = append(unproved, env.elabBool(it.E))
 				}
 				continue
